@@ -29,7 +29,7 @@ def run(prop, path):
             return 3
         tmp = tempfile.mkdtemp(prefix="replay_cc_")
         try:
-            cmd = m.group(1).replace("<this file>", path)
+            cmd = m.group(1).split(" && ")[0].replace("<this file>", path)   # the "&& ./replay" tail of the comment is run below
             cmd = re.sub(r"-o\s+\S+", "-o %s/replay" % tmp, cmd) if " -o " in cmd else cmd + " -o %s/replay" % tmp
             if path not in cmd:
                 cmd += " " + path
